@@ -38,7 +38,9 @@ RULE = ('joins: the C06 pair space (every pair of tables whose key vectors are A
         'sort-merge counterpart (skipped only where the counterpart lacks the argument: join has no `missing`, '
         'so ragged x missing=text is not compared for hashjoin); the C06 field-NAMING schemes (key / non-key names '
         'that are substrings, prefixes, superstrings, equal after str(), right field named like the left key) for all '
-        'five hash joins; ragged key-sorted inputs with the counterpart called with presorted=True.  '
+        'five hash joins, and the C06 key-argument FORM schemes (index instead of name incl. index 0 with further '
+        'shared fields, one-element tuple/list, empty-string field name, mixed index/name compound keys); ragged '
+        'key-sorted inputs with the counterpart called with presorted=True.  '
         'edit-between-passes: hashjoin hashleftjoin hashrightjoin over editable list sources, ALL histories '
         '(contents before, contents after) with each side ranging over every key vector of length 0..2 over '
         '{None,i1} (thorough +s1), x cache: pass, replace contents of either/both sides, pass, pass; cache=False: '
@@ -48,7 +50,11 @@ RULE = ('joins: the C06 pair space (every pair of tables whose key vectors are A
         'whose key column ranges over K6 (compound: two key columns, <=3 rows) x lookup lookupone dictlookup '
         'dictlookupone recordlookup recordlookupone x value default / one field / two fields x strict x dictionary= '
         'in {omitted, empty dict, dict pre-filled with foreign keys (must stay), copy-on-read persistent-style '
-        'mapping (pickle round trip on set/get, as shelve without writeback)}; '
+        'mapping (pickle round trip on set/get, as shelve without writeback)}; selector FORMS: every table <=3 rows '
+        'over {None,i1,s1} (thorough K4) under 4 headers (plain, and with the key / a middle / the last field named '
+        "'') x key selector as name, index 0/1, one-element tuple/list (compound: names, indices, mixed, reversed) x "
+        'value selector as default, name, index 0/1/2, empty name, one-element tuple/list, pairs of names/indices/'
+        'mixed x all six functions x strict x dictionary= omitted / copy-on-read; '
         'non-trivial: >=2 rows.  Excluded: unhashable keys (by the statement), tables without header row, '
         'ragged tables for the lookups and anti-joins (the documentation defines no result), presorted (no such '
         'argument).')
@@ -121,6 +127,36 @@ def lookup_tables(tier, seed):
     return out
 
 
+SEL_HEADERS = [('k', 'id', 'v'), ('', 'id', 'v'), ('k', '', 'v'), ('k', 'id', '')]
+SEL_CHEADERS = [('k', 'id', 'j', 'v'), ('', 'id', 'j', 'v'), ('k', 'id', '', 'v'), ('k', '', 'j', 'v')]
+SEL_MODES = (None, 'copying')
+
+
+def selector_space(tier, seed):
+    """[(table, key selector, [value selectors])]: wherever a selector may be a field name OR an index, every
+    accepted form: name, index (0, 1, 2 ...), the empty-string field name, one-element tuple / list, tuples mixing
+    names and indices."""
+    K3, K4 = spaces.K3(seed), spaces.K4(seed)
+    r = spaces.reps(seed)
+    out = []
+    for kv in J.key_tuples(K3 if tier == 'quick' else K4, 3):
+        rows = [(k, 'id%d' % i, 'v%d' % i) for i, k in enumerate(kv)]
+        for h in SEL_HEADERS:
+            keys = [h[0], 0, (h[0],), [0], h[1], 1]
+            values = [None, h[2], 2, 0, 1, h[1], (h[2],), [2], (h[1], h[2]), (1, 2), (0, h[2])]
+            for key in keys:
+                out.append(([h] + rows, key, values))
+    cells = list(itertools.product([None, r['i1']], repeat=2))
+    for kv in J.key_tuples(cells, 2):
+        rows = [(k[0], 'id%d' % i, k[1], 'v%d' % i) for i, k in enumerate(kv)]
+        for h in SEL_CHEADERS:
+            keys = [(h[0], h[2]), (0, 2), (h[0], 2), [0, h[2]], (2, 0), (h[2], h[0])]
+            values = [None, h[3], 3, 0, (3,), (h[1], h[3]), (1, 3)]
+            for key in keys:
+                out.append(([h] + rows, key, values))
+    return out
+
+
 def setup(tier, seed):
     _S.clear()
     _S['space'] = build_space(tier, seed)
@@ -128,6 +164,7 @@ def setup(tier, seed):
     _S['names'] = J.name_schemes(tier, seed) + J.keyform_schemes(tier, seed)
     _S['namedata'] = J.name_data(tier, seed)
     _S['edit'] = edit_tables(tier, seed)
+    _S['selectors'] = selector_space(tier, seed)
 
 
 def bounds(tier, seed):
@@ -142,6 +179,8 @@ def bounds(tier, seed):
                          'operators': len(J.HASH_OPS)}
     b['edit-between-passes'] = {'contents_per_side': len(_S['edit']), 'histories': len(_S['edit']) ** 4,
                                 'operators': len(EDIT_OPS), 'cache': 2, 'passes': 3}
+    b['lookup-selector-forms'] = {'table_x_key_selector': len(_S['selectors']),
+                                  'calls': sum((2 * 3 * len(v) + 6) * len(SEL_MODES) for _, _, v in _S['selectors'])}
     b['lookup_dictionary_modes'] = [str(m) for m in DICT_MODES]
     b['lookups'] = {'tables': len(_S['lookups']), 'call_forms': len(LOOKUP_FORMS),
                     'cases': len(_S['lookups']) * len(LOOKUP_FORMS) * len(DICT_MODES)}
@@ -167,6 +206,9 @@ def items(tier, seed):
     size = max(1, 6000 // (npairs * len(EDIT_OPS) * 2))
     for lo in range(0, npairs, size):
         out.append(('edit', 'edit-between-passes', lo, min(npairs, lo + size)))
+    n = len(_S['selectors'])
+    for lo in range(0, n, 250):
+        out.append(('selectors', 'lookup-selector-forms', lo, min(n, lo + 250)))
     n = len(_S['lookups'])
     size = 500
     for lo in range(0, n, size):
@@ -581,6 +623,41 @@ def _do_pair(acc, name, left, right, kw, ops, allkw, stats):
                                   'left': left, 'right': right, 'kwargs': kw2, 'group': g}, e, o, m)
 
 
+def _selform(x):
+    """Abstract form of a selector for group names: name / index / '' / tuple-of-forms."""
+    if x is None:
+        return 'default'
+    if isinstance(x, (tuple, list)):
+        return 'one-element sequence' if len(x) == 1 else 'sequence'
+    if isinstance(x, int):
+        return 'index'
+    return "''" if x == '' else 'name'
+
+
+def run_selectors(lo, hi, acc):
+    for table, key, values in _S['selectors'][lo:hi]:
+        for fn, strict in (('lookup', None), ('lookupone', False), ('lookupone', True), ('dictlookup', None),
+                           ('dictlookupone', False), ('dictlookupone', True), ('recordlookup', None),
+                           ('recordlookupone', False), ('recordlookupone', True)):
+            for value in (values if fn in ('lookup', 'lookupone') else [None]):
+                for dmode in SEL_MODES:
+                    acc.evals += 1
+                    acc.states += 1
+                    acc.transitions += 1
+                    acc.counters['selectors:' + fn] += 1
+                    if len(table) > 2:
+                        acc.nontrivial += 1
+                    r = check_lookup(fn, table, key, value, strict, dmode)
+                    acc.outcome(('sel', fn, strict, len(table), r is None))
+                    if r is not None:
+                        # few groups: name the value selector's form when one is given, else the key's
+                        form = ('%s(value=%s)' % (fn, _selform(value)) if value is not None
+                                else '%s(key=%s)' % (fn, _selform(key)))
+                        acc.violation('%s | %s' % (form, r[0]),
+                                      {'kind': 'lookup', 'fn': fn, 'table': table, 'key': key, 'value': value,
+                                       'strict': strict, 'dmode': dmode}, r[1], r[2], r[3])
+
+
 def run_item(item, acc):
     kind, name, lo, hi = item
     if kind == 'lookup':
@@ -615,6 +692,9 @@ def run_item(item, acc):
         return
     if kind == 'edit':
         run_edit(lo, hi, acc)
+        return
+    if kind == 'selectors':
+        run_selectors(lo, hi, acc)
         return
     stats = {'transitions': 0}
     if kind == 'names':
